@@ -91,7 +91,7 @@ theorem skipStrMb_closed (mb : MbLen) : ∀ (fuel : Nat) (r r' : List Byte),
         simp [skipStrMb] at h
         simp [skipStr_cons, h]
       · by_cases hlt : c < 128
-        · have hlen := mb.ascii c r hlt
+        · have hlen : mbStep mb (c :: r) = 1 := by simp [mbStep, mb.ascii c r hlt]
           simp only [skipStrMb, hc, if_false, hlen, List.drop_succ_cons, List.drop_zero] at h
           by_cases hc2 : c = 92
           · subst hc2
@@ -105,11 +105,14 @@ theorem skipStrMb_closed (mb : MbLen) : ∀ (fuel : Nat) (r r' : List Byte),
             simp [skipStr_cons, hc, hc2]
             exact ih _ _ h
         · have hc2 : c ≠ 92 := by omega
-          simp only [skipStrMb, hc, if_false] at h
-          split at h
-          · simp at h
-          · rename_i n hn
-            simp only [hc2, if_false] at h
+          simp only [skipStrMb, hc, hc2, if_false] at h
+          cases hn : mb.len (c :: r) with
+          | none =>
+            simp only [mbStep, hn, Option.getD_none, List.drop_succ_cons, List.drop_zero] at h
+            simp [skipStr_cons, hc, hc2]
+            exact ih _ _ h
+          | some n =>
+            simp only [mbStep, hn, Option.getD_some] at h
             rw [skipStr_drop mb c r n (by omega) hn]
             exact ih _ _ h
 
@@ -156,7 +159,7 @@ theorem Pfx.spanLoop (s : List Byte) : ∀ acc, Pfx s (List.span.loop isDigit s 
 
 theorem Pfx.span (s : List Byte) : Pfx s (s.span isDigit).2 := Pfx.spanLoop s []
 
-theorem parseExp_pfx (F : FloatOps α) (s : List Byte) (pw : α) (rem : List Byte)
+theorem parseExp_pfx (F : FloatOps α) (s : List Byte) (pw : α → α) (rem : List Byte)
     (h : parseExp F s = some (pw, rem)) : Pfx s rem := by
   unfold parseExp at h
   split at h
@@ -498,19 +501,19 @@ theorem pre_inv (mb : MbLen) (f1 : Nat) (top isMap idx : Bool) (c : Byte) (r0 : 
     (∃ stepZs r', ElemFact mb f1 (delimOf isMap idx) c r0 stepZs r' ∧
       pre mb f1 top isMap (idxNext isMap idx) r' (size + 1) (zs ++ stepZs) = some out) := by
   rw [pre.eq_3] at h
-  generalize hL : (if top = true then Option.map (fun n => List.drop n (c :: r0)) (mb.len (c :: r0)) else some r0) = L at h
-  have hl0 : ∀ l, L = some l → c < 128 → l = r0 := by
-    intro l hl hc
-    subst hl
+  generalize hL : (if top = true then List.drop (mbStep mb (c :: r0)) (c :: r0) else r0) = l at h
+  have hl : c < 128 → l = r0 := by
+    intro hc
+    subst hL
     cases top with
-    | false => simp at hL; exact hL.symm
-    | true => simp [mb.ascii c r0 hc] at hL; exact hL.symm
-  cases L with
-  | none => simp at h
-  | some l =>
-    have hl := hl0 l rfl
-    clear hl0 hL
-    simp only at h
+    | false => simp
+    | true => simp [mbStep, mb.ascii c r0 hc]
+  clear hL
+  have hmain :
+    (∃ r', r0 = 41 :: r' ∧ ((c = 93 ∧ isMap = true) ∨ ((c = 47 ∨ c = 125) ∧ isMap = false)) ∧ out = (r', size, zs)) ∨
+    (top = true ∧ out = ([], 0, [])) ∨
+    (∃ stepZs r', ElemFact mb f1 (delimOf isMap idx) c r0 stepZs r' ∧
+      pre mb f1 top isMap (idxNext isMap idx) r' (size + 1) (zs ++ stepZs) = some out) := by
     change (if c = 34 then _ else _) = _ at h
     simp only [delimOf, idxNext]
     generalize (if (isMap && !idx) = true then 58 else 44) = d0 at h ⊢
@@ -524,7 +527,6 @@ theorem pre_inv (mb : MbLen) (f1 : Nat) (top isMap idx : Bool) (c : Byte) (r0 : 
       | true =>
         simp only [if_true] at h
         split at h
-        · simp at h
         · right; left
           simp at h
           exact ⟨rfl, h.symm⟩
@@ -618,6 +620,7 @@ theorem pre_inv (mb : MbLen) (f1 : Nat) (top isMap idx : Bool) (c : Byte) (r0 : 
                 right; right
                 refine ⟨[], r', Or.inr (Or.inr (Or.inr ⟨h34, h40, h93, by omega, by omega, rfl, l, hl, had⟩)), by simpa using h⟩
               · simp at h
+  exact hmain
 
 /-! ## the value pass stays in sync with the pre-pass -/
 
@@ -1012,7 +1015,7 @@ theorem restoreObject_total {α : Type} (F : FloatOps α) (mb : MbLen) (nc : Boo
 
 def unitFT : FloatOps Unit :=
   ⟨fun _ => [49, 46, 53], fun _ => (), fun _ _ => (), fun _ _ => (), fun _ _ => (), fun _ => (), fun _ => (),
-    fun _ _ => true⟩
+    fun _ _ => true, fun _ => false, fun _ => false, fun _ => false⟩
 
 /-- the "C" locale: every byte below 128 is a character, everything else is invalid -/
 def asciiMbT : MbLen where
